@@ -82,7 +82,13 @@ def _run(spec, w):
                 if op == "slice":
                     desc["idxs"] = list(range(nrows))[H.mk_key(st["key"])]
                 else:
-                    desc["idxs"] = [k for k, f in enumerate(st["mask"]) if f]
+                    # list / Vector of booleans or of positions, or a live vector as the key: the rows it selects
+                    _key, idxs = H.sel_key(w, st)
+                    del _key
+                    if idxs is None:
+                        desc["unmodelled"] = True      # not a valid selection (must be refused, or gives no table)
+                    else:
+                        desc["idxs"] = idxs
             elif op in ("slice", "mask"):
                 desc["unmodelled"] = True      # vector selection is C07's business
             if op in ("append", "stackdict"):
